@@ -5,6 +5,7 @@ import (
 	"go/token"
 	"go/types"
 	"regexp"
+	"sort"
 	"strconv"
 	"strings"
 
@@ -204,6 +205,9 @@ func (fa *Facts) feasibleBlocks(f *ssa.Function, H map[string]bool) map[*ssa.Bas
 					if ok && fa.boolCompareInfeasible(b, sc, Hb) {
 						ok = false
 					}
+					if ok && fa.predicateInfeasible(b, sc, Hb) {
+						ok = false
+					}
 					if ok && isPhiTestBlock(b) && b != f.Blocks[0] {
 						ok = false
 						for _, p := range b.Preds {
@@ -273,6 +277,9 @@ func (fa *Facts) infeasible(from, to *ssa.BasicBlock, H map[string]bool) bool {
 		}
 	}
 	if fa.boolCompareInfeasible(from, to, H) {
+		return true
+	}
+	if fa.predicateInfeasible(from, to, H) {
 		return true
 	}
 	// branch on a phi: facts implied by every way of taking this edge
@@ -587,3 +594,179 @@ func (fa *Facts) boolCompareInfeasible(from, to *ssa.BasicBlock, H map[string]bo
 	}
 	return val != (from.Succs[0] == to)
 }
+
+// ---------- pure predicate helpers ----------
+
+// isPurePredicate: g is an unexported package function with a single bool result and no effects: no stores, sends,
+// go/defer statements, and no calls except builtins and other pure predicates / field accessors.
+func (fa *Facts) isPurePredicate(g *ssa.Function, depth int) bool {
+	if g == nil || !inSmtp(g) || isExported(g) || g.Parent() != nil || len(g.Blocks) == 0 || depth > 2 {
+		return false
+	}
+	res := g.Signature.Results()
+	if res.Len() != 1 || !isBoolType(res.At(0).Type()) {
+		return false
+	}
+	pure := true
+	allInstrs(g, func(in ssa.Instruction) {
+		switch x := in.(type) {
+		case *ssa.Store, *ssa.MapUpdate, *ssa.Send, *ssa.Go, *ssa.Defer, *ssa.Panic:
+			pure = false
+		case *ssa.Call:
+			if _, isB := x.Call.Value.(*ssa.Builtin); isB {
+				return
+			}
+			callee := staticCallee(&x.Call)
+			if callee == nil {
+				pure = false
+				return
+			}
+			if inSmtp(callee) {
+				if len(fa.MayWrite(callee)) > 0 || !(fa.isPurePredicate(callee, depth+1) || len(callee.Blocks) <= 2) {
+					pure = false
+				}
+				return
+			}
+			switch qualFuncName(callee) {
+			case "strings.EqualFold", "strings.HasPrefix", "strings.HasSuffix", "strings.Contains", "strings.ContainsAny", "strings.ToUpper", "strings.ToLower", "strings.TrimSpace":
+			default:
+				pure = false
+			}
+		}
+	})
+	return pure
+}
+
+// predicateTruthUnder: what the pure predicate called at `call` returns when H holds at the call site:
+// +1 certainly true, -1 certainly false, 0 unknown. H's atoms about fields carry over as they are; atoms about the
+// caller's values carry over when the value is an argument (re-expressed in the callee's parameter), others are dropped.
+func (fa *Facts) predicateTruthUnder(call *ssa.Call, H map[string]bool) int {
+	g := staticCallee(&call.Call)
+	if !fa.isPurePredicate(g, 0) {
+		return 0
+	}
+	type ad struct {
+		d string
+		i int
+	}
+	var args []ad
+	for i, a := range call.Call.Args {
+		if _, isK := stripConv(a).(*ssa.Const); isK {
+			continue
+		}
+		args = append(args, ad{describe(a), i})
+	}
+	sort.Slice(args, func(i, j int) bool { return len(args[i].d) > len(args[j].d) })
+	sameRecv := g.Signature.Recv() != nil && call.Parent().Signature.Recv() != nil && len(call.Call.Args) > 0 && describe(call.Call.Args[0]) == "param0" &&
+		types.Identical(g.Signature.Recv().Type(), call.Parent().Signature.Recv().Type())
+	H2 := map[string]bool{}
+	for h := range H {
+		tmp := h
+		for _, a := range args {
+			tmp = strings.ReplaceAll(tmp, a.d, fmt.Sprintf("\x00%d\x00", a.i))
+		}
+		if strings.Contains(tmp, "param") || strings.Contains(tmp, "local:") || strings.Contains(tmp, "alloc:") || strings.Contains(tmp, "next#") {
+			continue
+		}
+		for _, a := range args {
+			tmp = strings.ReplaceAll(tmp, fmt.Sprintf("\x00%d\x00", a.i), fmt.Sprintf("param%d", a.i))
+		}
+		_ = sameRecv
+		H2[canonAtom(tmp)] = true
+	}
+	fb := fa.feasibleBlocks(g, H2)
+	result := 0
+	set := func(t int) bool { // false: conflict
+		if t == 0 {
+			return false
+		}
+		if result != 0 && result != t {
+			return false
+		}
+		result = t
+		return true
+	}
+	okAll := true
+	allInstrs(g, func(in ssa.Instruction) {
+		if !okAll {
+			return
+		}
+		r, isR := in.(*ssa.Return)
+		if !isR || !fb[in.Block()] || in.Block() == g.Recover {
+			return
+		}
+		v := returnedValues(r)[0]
+		if b, isK := constBool(v); isK {
+			if !set(map[bool]int{true: 1, false: -1}[b]) {
+				okAll = false
+			}
+			return
+		}
+		if phi, isPhi := v.(*ssa.Phi); isPhi {
+			for i, e := range phi.Edges {
+				pred := phi.Block().Preds[i]
+				if !fb[pred] || fa.infeasible(pred, phi.Block(), H2) {
+					continue
+				}
+				t := 0
+				if b, isK := constBool(e); isK {
+					t = map[bool]int{true: 1, false: -1}[b]
+				} else {
+					t = fa.truthUnder(e, H2)
+				}
+				if !set(t) {
+					okAll = false
+					return
+				}
+			}
+			return
+		}
+		if !set(fa.truthUnder(v, H2)) {
+			okAll = false
+		}
+	})
+	if !okAll {
+		return 0
+	}
+	return result
+}
+
+// predicateInfeasible: the edge leaves a branch on a pure predicate helper whose result is decided by H.
+func (fa *Facts) predicateInfeasible(from, to *ssa.BasicBlock, H map[string]bool) bool {
+	if len(from.Instrs) == 0 || len(H) == 0 {
+		return false
+	}
+	iff, ok := from.Instrs[len(from.Instrs)-1].(*ssa.If)
+	if !ok || len(from.Succs) != 2 || from.Succs[0] == from.Succs[1] {
+		return false
+	}
+	cond := iff.Cond
+	neg := false
+	for {
+		u, ok := cond.(*ssa.UnOp)
+		if !ok || u.Op != token.NOT {
+			break
+		}
+		cond, neg = u.X, !neg
+	}
+	call, ok := cond.(*ssa.Call)
+	if !ok {
+		return false
+	}
+	if predDepth > 2 {
+		return false
+	}
+	predDepth++
+	t := fa.predicateTruthUnder(call, H)
+	predDepth--
+	if t == 0 {
+		return false
+	}
+	val := t > 0
+	if neg {
+		val = !val
+	}
+	return val != (from.Succs[0] == to)
+}
+
+var predDepth int
